@@ -66,8 +66,8 @@ Definition full_probe (h : half) (k : N) : list N :=
 
 Definition clear (h : half) : half := half0.
 
-Definition kv := (N * N)%type.
-Definition row := (N * (N * N))%type.          (* (key, (v1, v2)) *)
+Notation kv := (N * N)%type (only parsing).
+Notation row := (N * (N * N))%type (only parsing).          (* (key, (v1, v2)) *)
 
 (* SymmetricHashJoin: (lhs_state, rhs_state, lhs script, rhs script) *)
 Definition jst := (half * half * script kv * script kv)%type.
